@@ -211,16 +211,17 @@ end
 
 def modelFuel : Nat := 4096
 
-/-- `Request.encode(**kwargs)` / `Response.encode(coded_request, **kwargs)` -/
-def encodeMessage (ps : List Param) (values : PVal) (trig : Option Bytes) (strict : Bool) :
+/-- `Request.encode(**kwargs)` / `Response.encode(coded_request, **kwargs)` (`bs = none`), or a stand-alone
+    STRUCTURE with optional BYTE-SIZE -/
+def encodeMessage (bs : Option Nat) (ps : List Param) (values : PVal) (trig : Option Bytes) (strict : Bool) :
     Except Err (Bytes × Nat) :=
-  match encodeComposite modelFuel ps values { trig := trig, isEndOfPdu := true } strict with
+  match encodeDop modelFuel (.struct bs ps) values { trig := trig, isEndOfPdu := true } strict with
   | .ok (_, s) => .ok (s.msg, s.warn)
   | .error (e, _) => .error e
 
 /-- `Request.decode(message)` / `Response.decode(message)`; also returns the final cursor -/
-def decodeMessage (ps : List Param) (msg : Bytes) (strict : Bool) : Except Err (PVal × Nat) :=
-  match decodeComposite modelFuel ps { msg := msg } strict with
+def decodeMessage (bs : Option Nat) (ps : List Param) (msg : Bytes) (strict : Bool) : Except Err (PVal × Nat) :=
+  match decodeDop modelFuel (.struct bs ps) { msg := msg } strict with
   | .ok (v, s) => .ok (v, s.cursorByte)
   | .error (e, _) => .error e
 
